@@ -148,7 +148,7 @@ def adjust_case(case):
     if "program:no_release_with_pending_when_respawn_possible" in ex and respawn_path:
         case = copy.deepcopy(case)
         for ops in case["program"]:
-            if ops and ops[0][0] == "sleep" and len(ops) == 2 and ops[1][0] == "open_gate":
+            if ops and ops[0][0] == "sleep" and len(ops) == 2 and ops[1][0] in ("open_gate", "kill"):
                 continue
             new = []
             for op in ops:
